@@ -428,12 +428,13 @@ func cmdRO(args []string) int {
 		fmt.Fprintf(bw, "{\"start\":%q}\n", it.ID)
 		bw.Flush()
 		done := make(chan ROResult, 1)
-		go func() { done <- runRO(it, ks, work) }()
+		fin := make(chan struct{})
+		go func() { done <- runRO(it, ks, work); close(fin) }()
 		var r ROResult
-		select {
-		case r = <-done:
-		case <-time.After(behaviourTimeout):
+		if stalled(fin) {
 			r = ROResult{BehResult: BehResult{ID: it.ID, Hang: true, Findings: []Finding{{Prop: "C15", Msg: "did not finish: " + progress.phase}}, Dump: goroutineDump()}}
+		} else {
+			r = <-done
 		}
 		line, _ := json.Marshal(r)
 		bw.Write(line)
